@@ -21,8 +21,10 @@ VARIABLES full,      \* all bytes the reader will deliver before it ends (ghost:
           handed,    \* set of [id, hi]: slices given to the caller that are still protected (freed < hi)
           size,      \* initial buffer size asked for
           maxSpan,   \* longest selection-plus-lookahead requested so far
-          maxLag     \* largest backlog of shifted-but-unfreed bytes seen at a read
-svars == <<full, endKind, rdN, rdEnd, absStart, absPos, freed, reported, handed, size, maxSpan, maxLag>>
+          maxLag,    \* largest backlog of shifted-but-unfreed bytes seen at a read
+          memk       \* the caller's Free discipline, as far as the memory clause needs it: k >= 0: every shifted token is freed at the
+                     \* latest when k further tokens have been shifted (0: at once); -1: no such promise (then nothing is claimed)
+svars == <<full, endKind, rdN, rdEnd, absStart, absPos, freed, reported, handed, size, maxSpan, maxLag, memk>>
 
 C == INSTANCE Cursor WITH data <- full, rerr <- "nil", start <- absStart, pos <- absPos, spare <- FALSE, restored <- FALSE
 N == Len(full)
@@ -32,13 +34,13 @@ TypeOK == /\ rdN \in 0..N /\ absStart \in 0..N /\ absPos >= absStart
           /\ freed \in 0..absStart /\ reported \in 0..absStart
           /\ endKind \in {"eof", "fail"} /\ rdEnd \in {"no", "eof", "fail"}
 
-New(d, ek, sz) ==
+New(d, ek, sz, mk) ==
     /\ full' = d /\ endKind' = ek /\ rdN' = 0 /\ rdEnd' = "no" /\ absStart' = 0 /\ absPos' = 0
-    /\ freed' = 0 /\ reported' = 0 /\ handed' = {} /\ size' = sz /\ maxSpan' = 0 /\ maxLag' = 0
+    /\ freed' = 0 /\ reported' = 0 /\ handed' = {} /\ size' = sz /\ maxSpan' = 0 /\ maxLag' = 0 /\ memk' = mk
 \* constructor for a reader that has everything in memory (Bytes()): nothing is ever read
 NewBytes(d) ==
     /\ full' = d /\ endKind' = "eof" /\ rdN' = Len(d) /\ rdEnd' = "eof" /\ absStart' = 0 /\ absPos' = 0
-    /\ freed' = 0 /\ reported' = 0 /\ handed' = {} /\ size' = Len(d) /\ maxSpan' = 0 /\ maxLag' = 0
+    /\ freed' = 0 /\ reported' = 0 /\ handed' = {} /\ size' = Len(d) /\ maxSpan' = 0 /\ maxLag' = 0 /\ memk' = -1
 
 \* The slices the caller still relies on: `broken` are the ids whose bytes no longer equal what was handed out.
 Stable(broken) == \A s \in handed : s.id \in broken => freed >= s.hi
@@ -51,9 +53,9 @@ ReaderRead(want, bs, e) ==
     /\ rdN' = rdN + Len(bs)
     /\ rdEnd' = (IF e = "nil" THEN rdEnd ELSE e)
     /\ maxLag' = Max(maxLag, absStart - freed)
-    /\ UNCHANGED <<full, endKind, absStart, absPos, freed, reported, handed, size, maxSpan>>
+    /\ UNCHANGED <<full, endKind, memk, absStart, absPos, freed, reported, handed, size, maxSpan>>
 
-Obs == UNCHANGED <<full, endKind, rdN, rdEnd, absStart, absPos, freed, reported, handed, size, maxLag>>
+Obs == UNCHANGED <<full, endKind, memk, rdN, rdEnd, absStart, absPos, freed, reported, handed, size, maxLag>>
 
 Peek(k, r, broken) ==
     /\ absPos + k >= absStart
@@ -78,7 +80,7 @@ ErrOp(e, broken) ==
 PosOp(r, broken) == r = absPos - absStart /\ Stable(broken) /\ UNCHANGED maxSpan /\ Obs
 
 Mv == /\ maxSpan' = Max(maxSpan, absPos' - absStart)     \* a selection moved over counts as token length too
-      /\ UNCHANGED <<full, endKind, rdN, rdEnd, absStart, freed, reported, handed, size, maxLag>>
+      /\ UNCHANGED <<full, endKind, memk, rdN, rdEnd, absStart, freed, reported, handed, size, maxLag>>
 Move(n, broken)   == absPos + n >= absStart /\ absPos + n <= N /\ absPos' = absPos + n /\ Stable(broken) /\ Mv
 Rewind(m, broken) == m >= 0 /\ absStart + m <= N /\ absPos' = absStart + m /\ Stable(broken) /\ Mv
 
@@ -88,32 +90,36 @@ Lexeme(id, n, same, watch, broken) ==
     /\ n = absPos - absStart /\ same /\ absPos <= N
     /\ handed' = Keep(IF watch THEN handed \cup {[id |-> id, hi |-> absPos]} ELSE handed)
     /\ Stable(broken)
-    /\ UNCHANGED <<full, endKind, rdN, rdEnd, absStart, absPos, freed, reported, size, maxSpan, maxLag>>
+    /\ UNCHANGED <<full, endKind, memk, rdN, rdEnd, absStart, absPos, freed, reported, size, maxSpan, maxLag>>
 Shift(id, n, same, watch, broken) ==
     /\ n = absPos - absStart /\ same /\ absPos <= N
     /\ rdN >= absPos                                      \* a shifted token has been read
     /\ handed' = Keep(IF watch THEN handed \cup {[id |-> id, hi |-> absPos]} ELSE handed)
     /\ absStart' = absPos
     /\ Stable(broken)
-    /\ UNCHANGED <<full, endKind, rdN, rdEnd, absPos, freed, reported, size, maxSpan, maxLag>>
+    /\ UNCHANGED <<full, endKind, memk, rdN, rdEnd, absPos, freed, reported, size, maxSpan, maxLag>>
 Skip(broken) ==
     /\ absStart' = absPos /\ Stable(broken)
-    /\ UNCHANGED <<full, endKind, rdN, rdEnd, absPos, freed, reported, handed, size, maxSpan, maxLag>>
+    /\ UNCHANGED <<full, endKind, memk, rdN, rdEnd, absPos, freed, reported, handed, size, maxSpan, maxLag>>
 Free(n, broken) ==
     /\ n >= 0 /\ freed + n <= absStart                    \* caller contract: never free more than was shifted
     /\ freed' = freed + n
     /\ Stable(broken)                                     \* judged with the old `freed`: Free itself clobbers nothing
     /\ handed' = {s \in handed : freed + n < s.hi}
-    /\ UNCHANGED <<full, endKind, rdN, rdEnd, absStart, absPos, reported, size, maxSpan, maxLag>>
+    /\ UNCHANGED <<full, endKind, memk, rdN, rdEnd, absStart, absPos, reported, size, maxSpan, maxLag>>
 ShiftLen(r, broken) ==
     /\ r = absStart - reported /\ reported' = absStart
     /\ Stable(broken)
-    /\ UNCHANGED <<full, endKind, rdN, rdEnd, absStart, absPos, freed, handed, size, maxSpan, maxLag>>
+    /\ UNCHANGED <<full, endKind, memk, rdN, rdEnd, absStart, absPos, freed, handed, size, maxSpan, maxLag>>
 
-\* memory held by the lexer (all buffers it keeps alive): bounded by buffer size + longest token (+ unfreed backlog),
-\* never by the length of the stream.  The factor is generous; a leak grows without bound.
-MemBound == MemFactor * (size + maxSpan + maxLag) + MemSlack
-Held(bytes, broken) == bytes <= MemBound /\ Stable(broken) /\ UNCHANGED maxSpan /\ Obs
+\* memory held by the lexer (all buffers it keeps alive), "when every shifted token is freed": bounded by the buffer size plus
+\* the longest token, never by the length of the stream.  Free releases bytes in stream order, so under discipline memk = k the
+\* unfreed bytes are the last k tokens at most; each of them may pin the buffers retired while it was being read (at most one
+\* per byte looked at), and no buffer is larger than about five times the longest selection-plus-lookahead (growth rule c := 2c+p
+\* applies only while c < 2p).  The factor is generous; a leak grows without bound.  Without a promise (memk = -1: frees that
+\* are partial, late or absent) the statement claims nothing.
+MemBound == MemFactor * (size + maxSpan) * (1 + memk * (maxSpan + 1)) + MemSlack
+Held(bytes, broken) == (memk >= 0 => bytes <= MemBound) /\ Stable(broken) /\ UNCHANGED maxSpan /\ Obs
 
 Inv == TypeOK
 =============================================================================
